@@ -13,9 +13,11 @@ def main():
     only = sys.argv[1:] or None
     for d in sorted(glob.glob("/tmp/seed_C*")):
         pid = os.path.basename(d).split("_")[1]
+        tag = pid[3:]
+        pid = pid[:3]
         for patch in sorted(glob.glob(os.path.join(d, "patch*.diff"))):
             n = re.search(r"patch(\d+)", patch).group(1)
-            sid = "%s-%s" % (pid, n)
+            sid = "%s-%s%s" % (pid, n, tag)
             if only and sid not in only and pid not in only:
                 continue
             demo = os.path.join(d, "demo%s.py" % n)
@@ -60,7 +62,7 @@ def main():
                 res["confirmed"] = False
             finally:
                 sh(["git", "-C", "/repo", "worktree", "remove", "--force", wt])
-            print(json.dumps(res)[:600], flush=True)
+            print(json.dumps({k: res.get(k) for k in ("seed", "confirmed", "demo_clean_rc", "demo_patched_rc", "suite_ok", "suite", "fired", "error")}), flush=True)
             if res.get("confirmed"):
                 out = "/verif/seeded/%s" % sid
                 os.makedirs(out, exist_ok=True)
